@@ -2,6 +2,7 @@ package main
 
 import (
 	"fmt"
+	"sync"
 	"path/filepath"
 	"go/constant"
 	"go/token"
@@ -15,14 +16,15 @@ type goPanic struct{ v V }
 
 type frame struct {
 	fn     *ssa.Function
-	env    map[ssa.Value]V
+	fi     *funcInfo
+	regs   []V
 	locals []V
 	defers []func()
 	result V
 	block  *ssa.BasicBlock
 	prev   *ssa.BasicBlock
 	panicking *goPanic
-	loopCount map[*ssa.BasicBlock]int
+	loopCount []int32
 	deferOf   *frame // set on the frame of a deferred function: the frame whose defers are running
 }
 
@@ -59,6 +61,51 @@ func (in *Interp) reset() {
 	in.steps = 0
 	in.luts = nil
 }
+
+// funcInfo numbers the SSA values of a function so that frames keep them in a slice.
+type funcInfo struct {
+	idx map[ssa.Value]int
+	n   int
+}
+
+var funcInfos sync.Map // *ssa.Function -> *funcInfo
+
+func infoOf(fn *ssa.Function) *funcInfo {
+	if fi, ok := funcInfos.Load(fn); ok {
+		return fi.(*funcInfo)
+	}
+	fi := &funcInfo{idx: map[ssa.Value]int{}}
+	add := func(v ssa.Value) {
+		if _, ok := fi.idx[v]; !ok {
+			fi.idx[v] = fi.n
+			fi.n++
+		}
+	}
+	for _, p := range fn.Params {
+		add(p)
+	}
+	for _, fv := range fn.FreeVars {
+		add(fv)
+	}
+	for _, b := range fn.Blocks {
+		for _, ins := range b.Instrs {
+			if v, ok := ins.(ssa.Value); ok {
+				add(v)
+			}
+		}
+	}
+	if fn.Recover != nil {
+		for _, ins := range fn.Recover.Instrs {
+			if v, ok := ins.(ssa.Value); ok {
+				add(v)
+			}
+		}
+	}
+	act, _ := funcInfos.LoadOrStore(fn, fi)
+	return act.(*funcInfo)
+}
+
+func (fr *frame) set(v ssa.Value, x V) { fr.regs[fr.fi.idx[v]] = x }
 
 // ---- helpers for Int/Bool construction ----
 
@@ -167,11 +214,11 @@ func (in *Interp) get(fr *frame, v ssa.Value) V {
 	case *ssa.Builtin:
 		return x
 	}
-	r, ok := fr.env[v]
+	i, ok := fr.fi.idx[v]
 	if !ok {
 		panic(fmt.Sprintf("no value for %s (%T) in %s", v.Name(), v, fr.fn))
 	}
-	return r
+	return fr.regs[i]
 }
 
 func (in *Interp) global(g *ssa.Global) *V {
@@ -270,13 +317,14 @@ func (in *Interp) callFn(fn *ssa.Function, args []V, env []V, initCtx bool) V {
 		panic(pathEnd{"unwind", "recursion depth in " + name})
 	}
 	defer func() { in.depth-- }()
-	fr := &frame{fn: fn, env: map[ssa.Value]V{}, loopCount: map[*ssa.BasicBlock]int{}, deferOf: in.pendingDeferOf}
+	fi := infoOf(fn)
+	fr := &frame{fn: fn, fi: fi, regs: make([]V, fi.n), loopCount: make([]int32, len(fn.Blocks)), deferOf: in.pendingDeferOf}
 	in.pendingDeferOf = nil
 	for i, p := range fn.Params {
-		fr.env[p] = args[i]
+		fr.set(p, args[i])
 	}
 	for i, fv := range fn.FreeVars {
-		fr.env[fv] = env[i]
+		fr.set(fv, env[i])
 	}
 	return in.runFrame(fr, initCtx)
 }
@@ -345,8 +393,8 @@ func (in *Interp) runDefers(fr *frame) {
 func (in *Interp) loop(fr *frame, initCtx bool) V {
 	for {
 		b := fr.block
-		fr.loopCount[b]++
-		if fr.loopCount[b] > in.unwind*50 {
+		fr.loopCount[b.Index]++
+		if int(fr.loopCount[b.Index]) > in.unwind*50 {
 			panic(pathEnd{"unwind", fmt.Sprintf("block %d of %s", b.Index, fr.fn)})
 		}
 		var next *ssa.BasicBlock
@@ -374,7 +422,7 @@ func (in *Interp) loop(fr *frame, initCtx bool) V {
 				}
 				if pi >= 0 {
 					for i, ph := range phis {
-						fr.env[ph] = vals[i]
+						fr.set(ph, vals[i])
 					}
 				}
 			}
@@ -440,7 +488,7 @@ func (in *Interp) exec(fr *frame, ins ssa.Instruction, initCtx bool) {
 	case *ssa.Alloc:
 		slot := new(V)
 		*slot = zero(x.Type().(*types.Pointer).Elem())
-		fr.env[x] = Ptr(slot)
+		fr.regs[fr.fi.idx[x]] = Ptr(slot)
 	case *ssa.Store:
 		p := in.get(fr, x.Addr).(Ptr)
 		if p == nil {
@@ -448,9 +496,9 @@ func (in *Interp) exec(fr *frame, ins ssa.Instruction, initCtx bool) {
 		}
 		storeInto(p, in.get(fr, x.Val))
 	case *ssa.UnOp:
-		fr.env[x] = in.unop(fr, x)
+		fr.regs[fr.fi.idx[x]] = in.unop(fr, x)
 	case *ssa.BinOp:
-		fr.env[x] = in.binop(x.Op, in.get(fr, x.X), in.get(fr, x.Y), x.X.Type())
+		fr.regs[fr.fi.idx[x]] = in.binop(x.Op, in.get(fr, x.X), in.get(fr, x.Y), x.X.Type())
 	case *ssa.FieldAddr:
 		p := in.get(fr, x.X).(Ptr)
 		if p == nil {
@@ -460,18 +508,18 @@ func (in *Interp) exec(fr *frame, ins ssa.Instruction, initCtx bool) {
 		if !ok {
 			panic(unsupported(fmt.Sprintf("fieldaddr on %T in %s", *p, fr.fn)))
 		}
-		fr.env[x] = Ptr(&st[x.Field])
+		fr.regs[fr.fi.idx[x]] = Ptr(&st[x.Field])
 	case *ssa.Field:
 		st := in.get(fr, x.X).(Struct)
-		fr.env[x] = copyVal(st[x.Field])
+		fr.regs[fr.fi.idx[x]] = copyVal(st[x.Field])
 	case *ssa.IndexAddr:
-		fr.env[x] = in.indexAddr(fr, x)
+		fr.regs[fr.fi.idx[x]] = in.indexAddr(fr, x)
 	case *ssa.Index:
-		fr.env[x] = in.index(fr, x)
+		fr.regs[fr.fi.idx[x]] = in.index(fr, x)
 	case *ssa.Extract:
-		fr.env[x] = in.get(fr, x.Tuple).(Tuple)[x.Index]
+		fr.regs[fr.fi.idx[x]] = in.get(fr, x.Tuple).(Tuple)[x.Index]
 	case *ssa.Call:
-		fr.env[x] = in.doCall(fr, &x.Call, initCtx)
+		fr.regs[fr.fi.idx[x]] = in.doCall(fr, &x.Call, initCtx)
 	case *ssa.Defer:
 		fnv, args := in.prepareCall(fr, &x.Call)
 		call := &x.Call
@@ -483,28 +531,28 @@ func (in *Interp) exec(fr *frame, ins ssa.Instruction, initCtx bool) {
 	case *ssa.Send:
 		in.sched.send(in.get(fr, x.Chan).(*ChanV), in.get(fr, x.X))
 	case *ssa.Select:
-		fr.env[x] = in.doSelect(fr, x)
+		fr.regs[fr.fi.idx[x]] = in.doSelect(fr, x)
 	case *ssa.MakeInterface:
-		fr.env[x] = Iface{T: x.X.Type(), V: in.get(fr, x.X)}
+		fr.regs[fr.fi.idx[x]] = Iface{T: x.X.Type(), V: in.get(fr, x.X)}
 	case *ssa.ChangeInterface:
-		fr.env[x] = in.get(fr, x.X)
+		fr.regs[fr.fi.idx[x]] = in.get(fr, x.X)
 	case *ssa.ChangeType:
-		fr.env[x] = in.get(fr, x.X)
+		fr.regs[fr.fi.idx[x]] = in.get(fr, x.X)
 	case *ssa.Convert:
-		fr.env[x] = in.convert(in.get(fr, x.X), x.X.Type(), x.Type())
+		fr.regs[fr.fi.idx[x]] = in.convert(in.get(fr, x.X), x.X.Type(), x.Type())
 	case *ssa.MultiConvert:
-		fr.env[x] = in.convert(in.get(fr, x.X), x.X.Type(), x.Type())
+		fr.regs[fr.fi.idx[x]] = in.convert(in.get(fr, x.X), x.X.Type(), x.Type())
 	case *ssa.TypeAssert:
-		fr.env[x] = in.typeAssert(fr, x)
+		fr.regs[fr.fi.idx[x]] = in.typeAssert(fr, x)
 	case *ssa.MakeClosure:
 		c := &Closure{Fn: x.Fn.(*ssa.Function)}
 		for _, b := range x.Bindings {
 			c.Env = append(c.Env, in.get(fr, b))
 		}
-		fr.env[x] = c
+		fr.regs[fr.fi.idx[x]] = c
 	case *ssa.MakeMap:
 		mt := x.Type().Underlying().(*types.Map)
-		fr.env[x] = &MapV{KT: mt.Key(), VT: mt.Elem()}
+		fr.regs[fr.fi.idx[x]] = &MapV{KT: mt.Key(), VT: mt.Elem()}
 	case *ssa.MakeSlice:
 		n := in.concInt(in.get(fr, x.Len).(Int), 64, "makeslice")
 		c := in.concInt(in.get(fr, x.Cap).(Int), 1<<20, "makeslice-cap")
@@ -516,13 +564,13 @@ func (in *Interp) exec(fr *frame, ins ssa.Instruction, initCtx bool) {
 		for i := range a {
 			a[i] = zero(et)
 		}
-		fr.env[x] = Slice{A: a}
+		fr.regs[fr.fi.idx[x]] = Slice{A: a}
 	case *ssa.MakeChan:
 		n := in.concInt(in.get(fr, x.Size).(Int), 1<<20, "makechan")
 		et := x.Type().Underlying().(*types.Chan).Elem()
-		fr.env[x] = &ChanV{cap: n, elemZero: func() V { return zero(et) }}
+		fr.regs[fr.fi.idx[x]] = &ChanV{cap: n, elemZero: func() V { return zero(et) }}
 	case *ssa.Slice:
-		fr.env[x] = in.slice(fr, x)
+		fr.regs[fr.fi.idx[x]] = in.slice(fr, x)
 	case *ssa.SliceToArrayPointer:
 		sl := in.get(fr, x.X).(Slice)
 		n := int(x.Type().(*types.Pointer).Elem().Underlying().(*types.Array).Len())
@@ -531,9 +579,9 @@ func (in *Interp) exec(fr *frame, ins ssa.Instruction, initCtx bool) {
 		}
 		arr := Array(sl.A[:n:n])
 		var slot V = arr
-		fr.env[x] = Ptr(&slot)
+		fr.regs[fr.fi.idx[x]] = Ptr(&slot)
 	case *ssa.Lookup:
-		fr.env[x] = in.lookup(fr, x)
+		fr.regs[fr.fi.idx[x]] = in.lookup(fr, x)
 	case *ssa.MapUpdate:
 		m := in.get(fr, x.Map).(*MapV)
 		if m == nil {
@@ -541,9 +589,9 @@ func (in *Interp) exec(fr *frame, ins ssa.Instruction, initCtx bool) {
 		}
 		in.mapSet(m, in.get(fr, x.Key), copyVal(in.get(fr, x.Value)))
 	case *ssa.Range:
-		fr.env[x] = in.rangeIter(in.get(fr, x.X))
+		fr.regs[fr.fi.idx[x]] = in.rangeIter(in.get(fr, x.X))
 	case *ssa.Next:
-		fr.env[x] = in.next(in.get(fr, x.Iter).(*iter), x)
+		fr.regs[fr.fi.idx[x]] = in.next(in.get(fr, x.Iter).(*iter), x)
 	case *ssa.DebugRef:
 	default:
 		panic(unsupported(fmt.Sprintf("instruction %T in %s", ins, fr.fn)))
